@@ -13,7 +13,7 @@ AST (tuples):
                ('struct', path, [(field, e)..]) ('closure', [pat..], body) ('block', [stmt..], tail|None)
                ('match', scrut, [(pats, guard|None, body)..]) ('if', cond, then, else|None) ('iflet', pat, e, then, else|None)
                ('macro', name, token-list) ('for', pat, iter, body) ('loop', body) ('return', e|None) ('assign', lhs, rhs)
-               ('while', cond, body) ('whilelet', pat, e, body)      (`a += b` is read as ('assign', a, ('binop', '+', a, b)))
+               ('cast', e, type-name) ('while', cond, body) ('whilelet', pat, e, body)      (`a += b` is read as ('assign', a, ('binop', '+', a, b)))
   statements   ('let', pat, e) ('expr', e)            (an expression statement; `e` may be an ('assign'..))
   patterns     ('pwild',) ('pbind', name) ('ppath', path) ('ptuplestruct', path, [p..]) ('pstruct', path, [(field, p)..], has_rest)
                ('ptuple', [p..]) ('pslice', [p..]) ('plit', kind, text) ('pref', p) ('prest',)
@@ -160,7 +160,10 @@ class P:
             self.i += 1; self.accept('mut'); return ('unop', '&', self.unary(nostruct))
         if self.at('&&'):
             self.i += 1; return ('unop', '&', ('unop', '&', self.unary(nostruct)))
-        return self.postfix(self.primary(nostruct), nostruct)
+        e = self.postfix(self.primary(nostruct), nostruct)
+        while self.peek() == ('id', 'as'):                  # `e as T` (T a plain path such as usize, f64, i8)
+            self.i += 1; e = ('cast', e, '::'.join(self.path()))
+        return e
     def args(self, close=')'):
         out = []
         while not self.at(close):
@@ -178,7 +181,10 @@ class P:
                 if self.at('('): self.i += 1; e = ('mcall', e, name, tf, self.args())
                 else: e = ('field', e, name)
             elif self.at('('): self.i += 1; e = ('call', e, self.args())
-            elif self.at('['): self.i += 1; ix = self.expr(); self.eat(']'); e = ('index', e, ix)
+            elif self.at('['):
+                self.i += 1
+                ix = ('range_to', self.expr()) if self.accept('..') else self.expr()        # `xs[..n]`
+                self.eat(']'); e = ('index', e, ix)
             else: return e
     def block(self):
         self.eat('{'); stmts, tail = [], None
